@@ -112,10 +112,23 @@ fn check(s: &Shape, r: &mut Report) {
     }
     // surface equation
     for (i, p) in pos.iter().enumerate() {
-        if let Some(e) = on_surface(s, *p) { if !(e <= 1e-4) { r.violation(key("off-surface"), format!("vertex {i} at {p:?}: surface residual {e:.3e}"), case()); return; } }
+        // residuals are relative to the radius parameter; f32 coordinates carry an error of ~1 ulp of the mesh extent
+        let rmin = match *s { Shape::Sphere { r, .. } | Shape::Cyl { r, .. } | Shape::Capsule { r, .. } => r as f64, Shape::Torus { rmin, .. } => rmin as f64, Shape::Cone { rb, ra, .. } => rb.max(ra) as f64, _ => size };
+        if let Some(e) = on_surface(s, *p) { if !(e <= 1e-4 + 8.0 * f32::EPSILON as f64 * size / rmin.max(1e-30)) { r.violation(key("off-surface"), format!("vertex {i} at {p:?}: surface residual {e:.3e}"), case()); return; } }
     }
     // merge coincident vertices
-    let eps = 1e-4 * size;
+    // merge radius: 1e-4 of the smallest feature (the mesh extent, or a much smaller radius parameter)
+    let feature = match *s {
+        Shape::Sphere { r, .. } => r as f64,
+        // (the body of these spans y = -1..1 in seg / body_segments steps whatever the radius)
+        Shape::Cyl { r, seg, .. } => (r as f64).min(2.0 / seg as f64),
+        Shape::Capsule { r, body, .. } => (r as f64).min(2.0 / body as f64),
+        Shape::Torus { rmin, .. } => rmin as f64,
+        Shape::Cone { rb, ra, seg, .. } => [rb as f64, ra as f64, 2.0 / seg as f64].into_iter().filter(|x| *x > 0.0).fold(f64::MAX, f64::min),
+        _ => size,
+    };
+    // ... but never below the f32 resolution of the coordinates themselves
+    let eps = (1e-4 * size.min(feature)).max(16.0 * f32::EPSILON as f64 * size);
     let mut rep_of: Vec<usize> = (0..nv).collect();
     let mut grid: HashMap<(i64, i64, i64), Vec<usize>> = HashMap::new();
     for i in 0..nv {
@@ -135,7 +148,7 @@ fn check(s: &Shape, r: &mut Report) {
         let (ra, rb, rc) = (rep_of[a], rep_of[b], rep_of[c]);
         let g = cross(sub(pos[b], pos[a]), sub(pos[c], pos[a]));
         let area = len(g) / 2.0;
-        if ra == rb || rb == rc || ra == rc || area <= 1e-6 * size * size { r.h("degenerate-faces"); continue; }
+        if ra == rb || rb == rc || ra == rc || area <= 1e-6 * size.min(feature) * size.min(feature) { r.h("degenerate-faces"); continue; }
         nfaces += 1;
         for (x, y) in [(ra, rb), (rb, rc), (rc, ra)] { *edges.entry((x, y)).or_insert(0) += 1; }
         // vertex normals on the same side as the geometric normal
@@ -163,7 +176,7 @@ fn check(s: &Shape, r: &mut Report) {
         used.sort(); used.dedup();
         let (v, e, f) = (used.len() as i64, edges.len() as i64 / 2, nfaces);
         let vol: f64 = m.faces.iter().map(|f| { let [a, b, c] = f.0; dot(pos[a], cross(pos[b], pos[c])) / 6.0 }).sum();
-        if !(vol > 1e-9 * size * size * size) { r.violation(key("winding-inward"), format!("closed mesh has signed volume {vol:.4e}: faces are wound inward (or inconsistently)"), case()); return; }
+        if !(vol > 1e-9 * size * size.min(feature) * size.min(feature)) { r.violation(key("winding-inward"), format!("closed mesh has signed volume {vol:.4e}: faces are wound inward (or inconsistently)"), case()); return; }
         if v - e + f != chi { r.violation(key("euler"), format!("V-E+F = {v}-{e}+{f} = {}, expected {chi}", v - e + f), case()); return; }
         r.h("closed-ok");
     } else {
@@ -203,6 +216,17 @@ fn shapes(quick: bool) -> Vec<Shape> {
     }}}
     let (mb, mc) = if quick { (4, 4) } else { (8, 8) };
     for sec in 3..=msec { for body in 1..=mb { for cap in 1..=mc { for r in radii { v.push(Shape::Capsule { sec, body, cap, r }); } } } }
+    // magnitude sentinels: very small and very large radii on a thinned set of counts
+    for r in [1e-4f32, 1e-3, 0.02, 100.0, 1e4] { for sec in [3u32, 7, 16] { for seg in [2u32, 5] {
+        v.push(Shape::Sphere { sec, seg, r });
+        v.push(Shape::Cyl { sec, seg, capped: true, r });
+        v.push(Shape::Cyl { sec, seg, capped: false, r });
+        v.push(Shape::Capsule { sec, body: seg, cap: 3, r });
+        v.push(Shape::Cone { sec, seg, capped: true, rb: r, ra: 0.0 });
+        v.push(Shape::Cone { sec, seg, capped: true, rb: r, ra: r * 0.5 });
+        v.push(Shape::Torus { maj: sec.max(3), min: seg + 2, rmaj: r * 4.0, rmin: r });
+        if r < 1.0 { v.push(Shape::Torus { maj: sec.max(3), min: seg + 2, rmaj: 1.0, rmin: r }); }
+    }}}
     // scale sentinels: counts around 255/256/257 and a dense sphere
     for sec in [100u32, 255, 256, 257] {
         v.push(Shape::Sphere { sec, seg: 3, r: 1.0 });
@@ -237,6 +261,6 @@ fn main() {
     });
     rep.set("shapes", all.len() as u64);
     rep.finish(&cfg, "exploration",
-        "every Platonic solid; boxes over a corner lattice; Sphere/Torus/Cylinder/Cone/Capsule for EVERY sector and segment count from the minimum up to the tier bound x radii lattice x capped/uncapped (cones with zero apex or base radius); Lathe profiles with full and partial azimuth ranges. Per mesh: valid indices, unit normals, surface equation, vertex normals on the geometric-normal side of every non-degenerate face, one winding sense relative to the outside (outward), and after merging coincident vertices every directed edge exactly once with its reverse and V-E+F = 2 (torus 0) for closed solids / simple boundary rings of the expected size for open ones. non-trivial = mesh passed all applicable checks with >= 1 non-degenerate face.",
+        "every Platonic solid; boxes over a corner lattice; Sphere/Torus/Cylinder/Cone/Capsule for EVERY sector and segment count from the minimum up to the tier bound x radii lattice {0.5, 1, 3} x capped/uncapped (cones with zero apex or base radius); radii 1e-4, 1e-3, 0.02, 100, 1e4 on a thinned set of counts; Lathe profiles with full and partial azimuth ranges. Per mesh: valid indices, unit normals, surface equation, vertex normals on the geometric-normal side of every non-degenerate face, one winding sense relative to the outside (outward), and after merging coincident vertices every directed edge exactly once with its reverse and V-E+F = 2 (torus 0) for closed solids / simple boundary rings of the expected size for open ones. non-trivial = mesh passed all applicable checks with >= 1 non-degenerate face.",
         &["merge epsilon 1e-4 x mesh size; degenerate = merged corners or area <= 1e-6 size^2", "outside defined per shape family (centre / axis / tube centre); generic Lathe profiles are not judged for outward sense", "partial-azimuth lathes are judged as open shapes"]);
 }
